@@ -26,7 +26,7 @@ LEVELS = {
         "technique": "Lean 4 proof by induction over the operation list (refinement of both representations to a sorted association list; binary-search correctness) + state-space BFS and random differential correspondence run",
     },
     "C12": {
-        "text": "Kernel-checked theorems for all data values (any nesting of nil, booleans, int64, every float64 bit pattern, strings, errors, functions, extensions, quotes, registers, arrays, maps): Cmp never panics and returns -1/0/1, cmp b a = -cmp a b, reflexive, <= and < transitive, total, order-equivalent values interchangeable, the six operators mutually consistent, == an equivalence that implies cmp = 0 and holds for a copy, min/max return an extremal operand; about a Lean model of Cmp/Equals/operators (after two fix: commits) that is compared with the real code on all pairs of a ~150-value universe built through the API and from source and on 10^5 (quick) / 3.7*10^6 (thorough) triples per run.",
+        "text": "Kernel-checked theorems for all data values (any nesting of nil, booleans, int64, every float64 bit pattern, strings, errors, functions, extensions, quotes, registers, arrays, maps): Cmp never panics and returns -1/0/1, cmp b a = -cmp a b, reflexive, <= and < transitive, total, order-equivalent values interchangeable, the six operators mutually consistent, == an equivalence that implies cmp = 0 and holds for a copy, min/max return an extremal operand; about a Lean model of Cmp/Equals/operators (after two fix: commits) that is compared with the real code on all pairs of a 127-value universe built through the API and from source and on ~10^5 (quick) / ~2.4*10^6 (thorough) triples per run.",
         "design_ref": "DESIGN.md section 7, C12",
         "note": _TB + "Modelled: object.Cmp/cmpIntFloat/Equals/TypeEqual/Value(registers), cmp.Compare, evalInfixExpression comparison operators, min/max. Not modelled: Reference objects, RETURN/MACRO operands panic by design (excluded from the quantifier).",
         "technique": "Lean 4 proof (mutual structural induction over nested values; numeric order by an exact integer key value*2^1074) + differential correspondence run",
